@@ -20,10 +20,10 @@ theorem handleReplyStep_pendOk {cs cs' : CtxSt} {id : ReqId} {ok : Bool} {more :
     (h : PendOk cs) (hs : handleReplyStep cs id ok = some (cs', more, o)) : PendOk cs' := by
   unfold handleReplyStep at hs
   split at hs
-  · simp at hs
+  · simp only [Option.some.injEq, Prod.mk.injEq] at hs; obtain ⟨rfl, rfl, rfl⟩ := hs; exact h
   · rename_i pid hpid
     split at hs
-    · simp at hs
+    · simp only [Option.some.injEq, Prod.mk.injEq] at hs; obtain ⟨rfl, rfl, rfl⟩ := hs; exact h
     · rename_i po hpo
       have a1 := h.byId_some
       have a2 := h.byId_key
